@@ -5,6 +5,7 @@ import RjModel.Model.Frame
 import RjModel.Model.Key
 import RjModel.Model.Launch
 import RjModel.Model.ParseWire
+import RjModel.Model.FileRecv
 import RjModel.Model.ParseSettings
 import RjModel.Generated.Defaults
 open Rj
@@ -84,6 +85,32 @@ def handle (line : String) : String :=
     match cap.toNat?, sizes.mapM String.toNat? with
     | some c, some ms => s!"admitted={admittedCount c ms}"
     | _, _ => "bad-op"
+  | "recv" :: pre :: rest =>
+    -- recv <pre: - | len> <n> (<len> <more>)* (<fault>)*   fault: n | c | w<k> | t
+    let parseFault : String → Option Fault := fun t =>
+      match t.toList with
+      | ['n'] => some .none | ['c'] => some .create | ['t'] => some .setTime
+      | 'w' :: r => (String.ofList r).toNat?.map Fault.write
+      | _ => none
+    match P.run (do
+        let cs ← P.list (do let l ← P.nat; let m ← P.bool; pure (l, m))
+        let fs ← P.rep (do P.ofOpt (parseFault (← P.tok))) cs.length
+        pure (cs, fs)) rest with
+    | some (cs, fs) =>
+      -- bytes are abstracted to a running index so that completeness can be read off
+      let mk : List (Nat × Bool) → Nat → List Chunk := fun l _ =>
+        (l.foldl (fun (acc : List Chunk × Nat) (x : Nat × Bool) =>
+          (acc.1 ++ [⟨(List.range x.1).map (fun i => UInt8.ofNat ((acc.2 + i) % 251)), x.2⟩], acc.2 + x.1)) ([], 0)).1
+      let chunks := mk cs 0
+      let preF : Option FileSt := if pre = "-" then none else some ⟨List.replicate (pre.toNat?.getD 0) 238, .old⟩
+      let init : RS := ⟨preF, false, false, 0⟩
+      let fin := lastState init (transferStates true init (chunks.zip fs))
+      match fin.file with
+      | none => "absent"
+      | some f =>
+        let mt := match f.mt with | .src => "src" | .fresh _ => "fresh" | .old => "old"
+        s!"len={f.bytes.length} mt={mt} complete={if f.bytes = fullBytes chunks then 1 else 0}"
+    | none => "bad-op"
   | ["rpd", s] =>
     match unx s with
     | some str => renderPathDesc (parsePathDesc str)
